@@ -38,6 +38,8 @@ pub trait Config: 'static {
     fn with_capacity(_n: usize) -> Option<AnyVec<Self::Tr, Self::M>> { None }
     /// clone(), lazy clones, clone_empty probes with cloning: only for constraint sets that include Cloneable
     fn clone_ops(_w: &mut World<Self>, _a: &Value, _out: &mut ActOut) -> bool where Self: Sized { false }
+    /// into_raw_parts / RawParts::clone / from_raw_parts (backends whose Mem is MemRawParts)
+    fn raw_ops(_w: &mut World<Self>, _a: &Value, _out: &mut ActOut) -> bool where Self: Sized { false }
 }
 
 pub type V<C> = AnyVec<<C as Config>::Tr, <C as Config>::M>;
@@ -586,6 +588,111 @@ impl<C: Config> World<C> {
                     }
                 }
             }
+            "raw_roundtrip" => {
+                if !C::raw_ops(self, a, out) { panic!("driver: raw parts not offered by this backend"); }
+            }
+            "push_wrong" | "insert_wrong" | "swap_wrong" | "splice_wrong" => {
+                match st(a, "ty") {
+                    "X8" => self.wrong::<crate::elem::X8a8d>(a, out),
+                    "Y8" => self.wrong::<crate::elem::Y8a8n>(a, out),
+                    "Z16" => self.wrong::<crate::elem::Z16a8d>(a, out),
+                    t => panic!("driver: bad wrong type {}", t),
+                }
+            }
+            "downcast_q" => {
+                let some = match st(a, "ty") {
+                    "real" => self.downcast_q::<C::E>(a, out),
+                    "X8" => self.downcast_q::<crate::elem::X8a8d>(a, out),
+                    "Y8" => self.downcast_q::<crate::elem::Y8a8n>(a, out),
+                    "Z16" => self.downcast_q::<crate::elem::Z16a8d>(a, out),
+                    "u64" => self.downcast_q::<u64>(a, out),
+                    "bytes8" => self.downcast_q::<[u8; 8]>(a, out),
+                    t => panic!("driver: bad type {}", t),
+                };
+                if !some { out.res = "none"; }
+            }
+            "swap" => {
+                let i = usz(a, "i");
+                let first = st(a, "side") == "first";
+                match st(a, "with") {
+                    "elem" => {
+                        let w = vidx(st(a, "to"));
+                        let mut e1 = self.v(x).at_mut(i);
+                        let mut e2 = self.v(w).at_mut(usz(a, "j"));
+                        if first { e1.swap(&mut *e2) } else { e2.swap(&mut *e1) }
+                    }
+                    "handle" => {
+                        let w = vidx(st(a, "to"));
+                        let mut e1 = self.v(x).at_mut(i);
+                        macro_rules! sw { ($t:expr) => { if first { e1.swap($t) } else { $t.swap(&mut *e1) } } }
+                        match self.vs[w].h.as_mut().expect("driver: no handle") {
+                            Handle::Pop(t) => sw!(t),
+                            Handle::Remove(t) => sw!(t),
+                            Handle::SwapRemove(t) => sw!(t),
+                            _ => panic!("driver: swap with non-tmp handle"),
+                        }
+                    }
+                    "wrapper" => {
+                        let val = self.mk(out);
+                        let mut wv = AnyValueWrapper::new(val);
+                        {
+                            let mut e1 = self.v(x).at_mut(i);
+                            if first { e1.swap(&mut wv) } else { wv.swap(&mut *e1) }
+                        }
+                        let back = wv.downcast::<C::E>().expect("driver: wrapper type");
+                        self.ext.push(back);
+                    }
+                    "typed" => {
+                        // typed reference on one side, wrapper on the other (both statically typed)
+                        let val = self.mk(out);
+                        let mut wv = AnyValueWrapper::new(val);
+                        {
+                            let mut t = self.v(x).downcast_mut::<C::E>().expect("driver: type");
+                            let r: &mut C::E = t.at_mut(i);
+                            std::mem::swap(r, wv.downcast_mut::<C::E>().expect("driver: type"));
+                        }
+                        self.ext.push(wv.downcast::<C::E>().expect("driver: wrapper type"));
+                    }
+                    "raw" => {
+                        // the extracted value on top of ext, offered through a raw pointer handle
+                        let n = self.ext.len();
+                        let p = &mut self.ext[n - 1] as *mut C::E as *mut u8;
+                        let mut raw = unsafe { AnyValueRaw::new(NonNull::new_unchecked(p), C::E::SZ, TypeId::of::<C::E>()) };
+                        let mut e1 = self.v(x).at_mut(i);
+                        if first { e1.swap(&mut raw) } else { raw.swap(&mut *e1) }
+                    }
+                    k => panic!("driver: bad swap partner {}", k),
+                }
+            }
+            "spare_write" => {
+                let k = usz(a, "k");
+                let v = self.v(x);
+                let (len, cap) = (v.len(), v.capacity());
+                let sz = C::E::SZ;
+                let base = v.downcast_ref::<C::E>().expect("driver: type").as_ptr() as usize;
+                let vals: Vec<C::E> = { let _h = HarnessScope::new(); (0..k).map(|_| self.mk(out)).collect() };
+                if st(a, "via") == "bytes" {
+                    let sp = v.spare_bytes_mut();
+                    let ok = sp.len() == (cap - len).min(1 << 20) * sz && (sz == 0 || sp.as_ptr() as usize == base + len * sz);
+                    if !ok { out.note.push("bad_spare".to_string()); }
+                    if ok {
+                        for (j, val) in vals.into_iter().enumerate() {
+                            let val = ManuallyDrop::new(val);
+                            for (b, src) in sp[j * sz..(j + 1) * sz].iter_mut().zip(val.bytes()) { b.write(*src); }
+                        }
+                        unsafe { v.set_len(len + k); }
+                    } else { for val in vals { self.ext.push(val); } }
+                } else {
+                    let mut t = v.downcast_mut::<C::E>().expect("driver: type");
+                    let sp = t.spare_capacity_mut();
+                    let ok = sp.len() == (cap - len) && (sz == 0 || sp.as_ptr() as usize == base + len * sz);
+                    if !ok { out.note.push("bad_spare".to_string()); }
+                    if ok {
+                        for (j, val) in vals.into_iter().enumerate() { sp[j].write(val); }
+                        unsafe { t.set_len(len + k); }
+                    } else { for val in vals { self.ext.push(val); } }
+                }
+            }
             "recreate" => {
                 // drop the vector and build a new one with_capacity(n)
                 let n = bound_val(a["n"].as_i64().unwrap_or(0));
@@ -597,6 +704,90 @@ impl<C: Config> World<C> {
                 self.vs[x].ptr = Box::into_raw(b);
             }
             o => panic!("driver: unknown op {}", o),
+        }
+    }
+
+    /// offer a value of another runtime type `X` to a checked entry point: the call must panic, the vector stay unchanged
+    fn wrong<X: Elem>(&mut self, a: &Value, out: &mut ActOut) {
+        let x = vidx(st(a, "v"));
+        let id = reg::fresh_id();
+        // a value without drop glue is invisible to the registry: it is not reported as born and is written off at once
+        if X::DROP { out.born.push(id); } else { reg::mark_dead_silently(id); }
+        let val = X::make(id, 0);
+        let raw_src = a.get("src").and_then(|s| s.as_str()) == Some("raw");
+        match st(a, "op") {
+            "push_wrong" | "insert_wrong" => {
+                let ins = st(a, "op") == "insert_wrong";
+                let i = a.get("i").and_then(|v| v.as_i64()).unwrap_or(0) as usize;
+                if raw_src {
+                    let b: Box<ManuallyDrop<X>> = { let _h = HarnessScope::new(); Box::new(ManuallyDrop::new(val)) };
+                    let p = &**b as *const X as *mut u8;
+                    let raw = unsafe { AnyValueRaw::new(NonNull::new_unchecked(p), X::SZ, TypeId::of::<X>()) };
+                    let v = self.v(x);
+                    let r = catch_unwind(AssertUnwindSafe(|| if ins { v.insert(i, raw) } else { v.push(raw) }));
+                    // the raw pointer did not take ownership when the call was rejected: the driver destroys the value
+                    if r.is_err() { drop(ManuallyDrop::into_inner(*b)); }
+                    if let Err(p) = r { std::panic::resume_unwind(p); }
+                    out.note.push("wrong_type_admitted".to_string());
+                } else {
+                    let v = self.v(x);
+                    if ins { v.insert(i, AnyValueWrapper::new(val)) } else { v.push(AnyValueWrapper::new(val)) }
+                    out.note.push("wrong_type_admitted".to_string());
+                }
+            }
+            "swap_wrong" => {
+                let mut wv = AnyValueWrapper::new(val);
+                let mut e1 = self.v(x).at_mut(usz(a, "i"));
+                if st(a, "side") == "first" { e1.swap(&mut wv) } else { wv.swap(&mut *e1) }
+                out.note.push("wrong_type_admitted".to_string());
+            }
+            "splice_wrong" => {
+                // n replacement items, the j-th of another type (each a correctly described raw value of its own type)
+                let n = usz(a, "n");
+                let j = usz(a, "j");
+                let mut good: Vec<ManuallyDrop<C::E>> = { let _h = HarnessScope::new(); Vec::with_capacity(n) };
+                let mut items: Vec<AnyValueRaw> = { let _h = HarnessScope::new(); Vec::with_capacity(n) };
+                let bad = ManuallyDrop::new(val);
+                for k in 1..=n {
+                    if k == j {
+                        let p = &*bad as *const X as *mut u8;
+                        items.push(unsafe { AnyValueRaw::new(NonNull::new_unchecked(p), X::SZ, TypeId::of::<X>()) });
+                    } else {
+                        let idk = if C::E::SZ == 0 { 0 } else { reg::fresh_id() };
+                        out.born.push(idk);
+                        good.push(ManuallyDrop::new(C::E::make(idk, 0)));
+                        let p = &**good.last().unwrap() as *const C::E as *mut u8;
+                        items.push(unsafe { AnyValueRaw::new(NonNull::new_unchecked(p), C::E::SZ, TypeId::of::<C::E>()) });
+                    }
+                }
+                let v = self.v(x);
+                let r = catch_unwind(AssertUnwindSafe(|| { let sp = v.splice(usz(a, "s")..usz(a, "e"), items); drop(sp); }));
+                // the wrong-typed value never entered the vector: the driver destroys it; good items that were not moved in leak
+                drop(ManuallyDrop::into_inner(bad));
+                if let Err(p) = r { std::panic::resume_unwind(p); }
+                out.note.push("wrong_type_admitted".to_string());
+            }
+            o => panic!("driver: bad wrong op {}", o),
+        }
+    }
+
+    /// does a downcast to `T` succeed on the given kind of object?
+    fn downcast_q<T: 'static>(&mut self, a: &Value, _out: &mut ActOut) -> bool {
+        let x = vidx(st(a, "v"));
+        let i = a.get("i").and_then(|v| v.as_i64()).unwrap_or(0) as usize;
+        match st(a, "what") {
+            "vec_ref" => self.v(x).downcast_ref::<T>().is_some(),
+            "vec_mut" => self.v(x).downcast_mut::<T>().is_some(),
+            "elem_ref" => { let e = self.v(x).at(i); let r = e.downcast_ref::<T>().is_some(); r && AnyValue::downcast_ref::<T>(&*e).is_some() }
+            "elem_mut" => { let mut e = self.v(x).at_mut(i); let r = e.downcast_mut::<T>().is_some(); r && e.downcast_ref::<T>().is_some() }
+            "handle" => match self.vs[x].h.as_mut().expect("driver: no handle") {
+                Handle::Pop(t) => t.downcast_ref::<T>().is_some() && t.downcast_mut::<T>().is_some(),
+                Handle::Remove(t) => t.downcast_ref::<T>().is_some() && t.downcast_mut::<T>().is_some(),
+                Handle::SwapRemove(t) => t.downcast_ref::<T>().is_some() && t.downcast_mut::<T>().is_some(),
+                _ => panic!("driver: downcast_q on non-tmp handle"),
+            },
+            "wrapper" => { let w = AnyValueWrapper::new(7u32); let r = w.downcast_ref::<T>().is_some(); r == (TypeId::of::<T>() == TypeId::of::<u32>()) && TypeId::of::<T>() == TypeId::of::<C::E>() }
+            k => panic!("driver: bad downcast target {}", k),
         }
     }
 
@@ -869,4 +1060,32 @@ fn lazy_consume<C: Config, L: AnyValue + Clone>(w: &mut World<C>, lz: &L, n: usi
             }
         }
     }
+}
+
+
+pub fn raw_ops_impl<C: Config>(w: &mut World<C>, a: &Value, out: &mut ActOut) -> bool
+where <C::M as MemBuilder>::Mem: any_vec::mem::MemRawParts, <<C::M as MemBuilder>::Mem as any_vec::mem::MemRawParts>::Handle: Clone {
+    let x = vidx(st(a, "v"));
+    let v: Box<V<C>> = unsafe { Box::from_raw(w.vs[x].ptr) };
+    w.vs[x].ptr = std::ptr::null_mut();
+    let (len0, cap0) = (v.len(), v.capacity());
+    let (lay0, ty0, drop0) = (v.element_layout(), v.element_typeid(), v.element_drop().is_some());
+    let parts = (*v).into_raw_parts();
+    let mut ok = parts.len == len0 && parts.capacity == cap0 && parts.element_layout == lay0 && parts.element_typeid == ty0
+        && parts.element_drop.is_some() == drop0 && lay0 == core::alloc::Layout::new::<C::E>() && ty0 == TypeId::of::<C::E>()
+        && drop0 == std::mem::needs_drop::<C::E>();
+    if !ok { out.note.push("bad_parts".to_string()); }
+    let use_parts = if a.get("clone").and_then(|c| c.as_bool()).unwrap_or(false) {
+        let p2 = parts.clone();
+        let same = p2.len == parts.len && p2.capacity == parts.capacity && p2.element_layout == parts.element_layout
+            && p2.element_typeid == parts.element_typeid && p2.element_drop.map(|f| f as usize) == parts.element_drop.map(|f| f as usize)
+            && (p2.element_clone as usize) == (parts.element_clone as usize);
+        if !same { out.note.push("bad_parts_clone".to_string()); ok = false; }
+        if same { p2 } else { parts }
+    } else { parts };
+    let _ = ok;
+    let nv: V<C> = unsafe { AnyVec::from_raw_parts(use_parts) };
+    let b = { let _h = HarnessScope::new(); Box::new(nv) };
+    w.vs[x].ptr = Box::into_raw(b);
+    true
 }
